@@ -7,25 +7,35 @@ Spec:  Params.tla  (Resolve(preset, field) = declared-if-declared-else-parent; f
 Bind:  spec -> code.  The *declarations* of DefaultParams and of every class in pydrex.mock are read
        from the source with `ast` (plain and annotated assignments) and handed to TLC as a JSON
        constant (C19_DECL_FILE, scratch directory).  TLC emits the expected value of every
-       (class, field) and the expected outcome class / parsed values of every configuration; this
-       module instantiates the classes / writes the TOML file and its stub inputs, runs the real
+       (class, field) and the expected outcome class / parsed value classes of every configuration;
+       this module instantiates the classes / writes the TOML file and its stub inputs, runs the real
        code, projects the result to the abstract facts the spec talks about and compares.  No
-       expectation is computed here.
+       expectation is computed here: which keys exist, what is written for them, what they default
+       to, which configurations must be rejected and which demands are 'stated' (violation) or only
+       'implied' by the documentation (observation) is all in the .tla text.
 """
 from __future__ import annotations
 
 import ast
 import dataclasses
-import fractions
 import json
 import math
 import os
 import pathlib
 import time
 
-from harness.common import REPO, SEED, Check, MachineryError, parse_printed_json, quiet_pydrex, run_tlc, scratch
+from harness.common import REPO, SEED, Check, MachineryError, parse_printed_json, quiet_pydrex, run_tlc, scratch  # noqa: F401
+
+if True:  # tomllib as used by the code under test
+    import sys
+
+    if sys.version_info >= (3, 11):
+        import tomllib
+    else:  # pragma: no cover
+        import tomli as tomllib
 
 WORKERS = int(os.environ.get("C19_TLC_WORKERS", "8"))
+MISSING = type("Missing", (), {"__repr__": lambda self: "<missing>"})()
 
 # =============================================================================== declarations
 
@@ -79,11 +89,30 @@ def extract_declarations(core_py, mock_py, root="DefaultParams"):
     return dict(root=root, order=order, classes=classes, parent=parent, declared=declared), style, ignored
 
 
-# =============================================================================== Params replay
+def default_shape(decl):
+    """Abstract projection of the declared default phase lists for the decision model of Config.tla:
+    phase names and exact rational fractions."""
+    import fractions
+
+    import pydrex.core as core
+
+    ns = dict(vars(core))
+    asm = eval(decl["declared"][decl["root"]]["phase_assemblage"], ns)  # noqa: S307
+    fr = eval(decl["declared"][decl["root"]]["phase_fractions"], ns)  # noqa: S307
+    out = []
+    for x in fr:
+        q = fractions.Fraction(x).limit_denominator(1000)
+        if float(q) != float(x):
+            raise MachineryError(f"default phase fraction {x!r} is not a small rational")
+        out.append([q.numerator, q.denominator])
+    return dict(asm=[core.MineralPhase(p).name for p in asm], fr=out)
+
+
+# =============================================================================== comparison helpers
 
 
 def _norm(v):
-    """Sequence-type agnostic, enum-preserving normal form for equality of declared values."""
+    """Sequence-type agnostic normal form (the statement does not distinguish list from tuple)."""
     if isinstance(v, (list, tuple)):
         return tuple(_norm(x) for x in v)
     return v
@@ -103,10 +132,39 @@ def _same(a, b):
         return False
 
 
-class ParamsReplayer:
-    """Evaluates what the spec emitted for Params.tla against the real classes."""
+class Collector:
+    """Groups mismatches by discrete signature; one chk.violation per signature, with all the
+    instances (capped) in the replay object.  Observations (force 'I') never become violations."""
 
-    def __init__(self, pd, decl):
+    def __init__(self):
+        self.viol = {}
+        self.obs = {}
+
+    def add(self, force, sig, what, detail):
+        key = json.dumps(sig, sort_keys=True)
+        bucket = self.viol if force == "S" else self.obs
+        e = bucket.setdefault(key, dict(sig=sig, what=what, n=0, instances=[]))
+        e["n"] += 1
+        if len(e["instances"]) < 12:
+            e["instances"].append(detail)
+
+    def flush(self, chk):
+        for e in self.viol.values():
+            chk.violation(e["sig"], f"{e['what']} [{e['n']} case(s)]", dict(first=e["instances"][0], occurrences=e["n"], instances=e["instances"]))
+        if self.obs:
+            chk.cov.setdefault("observations", [])
+            for e in self.obs.values():
+                chk.cov["observations"].append(dict(signature=e["sig"], what=e["what"], occurrences=e["n"], example=e["instances"][0]))
+                print(f"NOTE property={chk.pid} observation (documentation-level, not a violation of the statement): {e['what']} [{e['n']} case(s)]")
+
+
+# =============================================================================== Params replay
+
+
+class ParamsReplayer:
+    """Evaluates what Params.tla emitted against the real classes."""
+
+    def __init__(self, decl):
         import pydrex.core
         import pydrex.mock
 
@@ -129,15 +187,13 @@ class ParamsReplayer:
                 self._inst[name] = ("raised", type(ex).__name__)
         return self._inst[name]
 
-    def replay(self, case, chk):
-        kind = case["kind"]
-        return getattr(self, "_" + kind)(case, chk)
+    def replay(self, case, col):
+        return getattr(self, "_" + case["kind"])(case, col)
 
-    def _value(self, c, chk):
+    def _value(self, c, col):
         st, inst = self.instance(c["cls"])
-        what = f"{c['cls']}().{c['field']}"
         if st != "ok":
-            chk.violation(dict(clause="preset-construction-raised", exc=inst), f"{c['cls']}() raised {inst}", dict(case=c))
+            col.add("S", dict(clause="preset-construction-raised", exc=inst), f"{c['cls']}() raised {inst}", dict(case=c))
             return
         exp = self.value(c["expected"], c["origin"])
         views = {}
@@ -157,13 +213,14 @@ class ParamsReplayer:
                     clause = "preset-undeclared-field-not-inherited"
                 else:
                     clause = "default-record-value-not-declared-default"
-                chk.violation(
+                col.add(
+                    "S",
                     dict(clause=clause),
-                    f"{what} ({view}) yields {got!r}; the class declares {c['expected']} (declared in {c['origin']})",
-                    dict(case=c, view=view, got=repr(got)),
+                    f"{c['cls']}().{c['field']} ({view}) yields {got!r}; the class declares {c['expected']} (declared in {c['origin']})",
+                    dict(kind="value", cls=c["cls"], field=c["field"], view=view, got=repr(got), declared=c["expected"], declared_in=c["origin"]),
                 )
 
-    def _frozen(self, c, chk):
+    def _frozen(self, c, col):
         inst = self.cls(c["cls"])()
         before = getattr(inst, c["field"])
         try:
@@ -179,11 +236,11 @@ class ParamsReplayer:
         exp = self.value(c["expected"], self.root)
         after = getattr(inst, c["field"], "<deleted>")
         if out != c["outcome"]:
-            chk.violation(dict(clause="default-record-mutable", op=c["op"], got=out), f"{c['op']} on {c['cls']}().{c['field']} -> {out}; spec: {c['outcome']}", dict(case=c))
+            col.add("S", dict(clause="default-record-mutable", op=c["op"], got=out), f"{c['op']} on {c['cls']}().{c['field']} -> {out}; spec: {c['outcome']}", dict(case=c))
         elif not _same(after, exp) or not _same(after, before):
-            chk.violation(dict(clause="refused-mutation-changed-record", op=c["op"]), f"{c['op']} on {c['cls']}().{c['field']} was refused but the value is now {after!r}", dict(case=c))
+            col.add("S", dict(clause="refused-mutation-changed-record", op=c["op"]), f"{c['op']} on {c['cls']}().{c['field']} was refused but the value is now {after!r}", dict(case=c))
 
-    def _hash(self, c, chk):
+    def _hash(self, c, col):
         cls = self.cls(c["cls"])
         try:
             h1, h2 = hash(cls()), hash(cls())
@@ -191,18 +248,18 @@ class ParamsReplayer:
         except Exception as ex:  # noqa: BLE001
             out, h1, h2 = "other:" + type(ex).__name__, None, None
         if out != c["outcome"]:
-            chk.violation(dict(clause="default-record-not-hashable", got=out), f"hash({c['cls']}()) -> {out}", dict(case=c))
+            col.add("S", dict(clause="default-record-not-hashable", got=out), f"hash({c['cls']}()) -> {out}", dict(case=c))
         elif c["equal_records_equal_hash"] and (cls() != cls() or h1 != h2):
-            chk.violation(dict(clause="equal-records-unequal-hash"), f"two {c['cls']}() differ in equality or hash", dict(case=c))
+            col.add("S", dict(clause="equal-records-unequal-hash"), f"two {c['cls']}() differ in equality or hash", dict(case=c))
 
-    def _roundtrip(self, c, chk):
+    def _roundtrip(self, c, col):
         cls = self.cls(c["cls"])
         inst = cls()
         try:
             d = inst.as_dict()
             back = cls(**d)
         except Exception as ex:  # noqa: BLE001
-            chk.violation(dict(clause="dict-round-trip-raised", exc=type(ex).__name__), f"{c['cls']}(**{c['cls']}().as_dict()) raised {type(ex).__name__}: {ex}", dict(case=c))
+            col.add("S", dict(clause="dict-round-trip-raised", exc=type(ex).__name__), f"{c['cls']}(**{c['cls']}().as_dict()) raised {type(ex).__name__}: {ex}", dict(case=c))
             return
         bad = []
         if set(d) != set(c["dict"]):
@@ -215,17 +272,27 @@ class ParamsReplayer:
                 bad.append(f"rebuilt.{f}")
         if c["equal"] and (back != inst or hash(back) != hash(inst) or back.as_dict() != d):
             bad.append("rebuilt record differs from the original")
-        # the dictionary form is a copy: changing it must not reach the immutable record
-        for f in list(d):
+        for f in list(d):  # the dictionary form is a copy: changing it must not reach the immutable record
             d[f] = None
         if inst != cls():
             bad.append("mutating the dictionary form changed the record")
         if bad:
-            chk.violation(dict(clause="dict-round-trip"), f"{c['cls']} does not round-trip through as_dict(): {bad[:4]}", dict(case=c, bad=bad))
+            col.add("S", dict(clause="dict-round-trip"), f"{c['cls']} does not round-trip through as_dict(): {bad[:4]}", dict(case=c, bad=bad))
 
 
-def run_params(chk, pd, d, tier):
-    decl, style, ignored = extract_declarations(REPO / "src/pydrex/core.py", REPO / "src/pydrex/mock.py")
+def _probe(fn):
+    col = Collector()
+    fn(col)
+    return len(col.viol)
+
+
+def run_params(chk, d, tier):
+    import pydrex.core
+    import pydrex.mock
+
+    # the declarations are read from the very files the interpreter imported
+    decl, style, ignored = extract_declarations(pydrex.core.__file__, pydrex.mock.__file__)
+    decl["default_shape"] = default_shape(decl)
     decl_file = d / "decl.json"
     decl_file.write_text(json.dumps(decl))
     res = run_tlc("Params", workers=WORKERS, timeout=300, env={"C19_DECL_FILE": decl_file})
@@ -234,42 +301,465 @@ def run_params(chk, pd, d, tier):
     want = n_cls * n_f + 2 * n_f + 2
     if len(cases) != want:
         raise MachineryError(f"Params.tla emitted {len(cases)} cases, expected {want}")
-    chk.add_tlc("Params", res, f"{n_cls} classes x {n_f} fields (declarations read from the source with ast) + frozen/hash/round-trip cases of the root record")
-    rep = ParamsReplayer(pd, decl)
-    import pydrex.mock
-
-    # every class the mock module publishes must be in the table (the quantifier is 'all presets')
+    chk.add_tlc("Params", res, f"{n_cls} classes x {n_f} fields (declarations read from the source with ast) + frozen/hash/round-trip cases of the root record; 7 lemmas")
+    rep = ParamsReplayer(decl)
+    # the quantifier is 'all presets in the mock module': the ast extraction must have found each of them
     published = [n for n, o in vars(pydrex.mock).items() if isinstance(o, type) and issubclass(o, rep.cls(decl["root"])) and o.__module__ == "pydrex.mock"]
     missing = sorted(set(published) - set(decl["classes"]))
     if missing:
         raise MachineryError(f"presets not found by the ast extraction: {missing}")
+    col = Collector()
     for c in cases:
-        rep.replay(c, chk)
+        rep.replay(c, col)
         if c["kind"] == "value":
             chk.count(("value", c["cls"], c["field"]), nontrivial=bool(c["own"]))
         else:
             chk.count((c["kind"], c.get("field"), c.get("op")))
-    chk.sample(dict(kind="preset-value", case=next(c for c in cases if c["kind"] == "value" and c["differs"])))
-    chk.cov["params"] = dict(classes=decl["classes"], declaration_styles=style, non_field_declarations_ignored={k: v for k, v in ignored.items() if v})
+    col.flush(chk)
+    differing = [c for c in cases if c["kind"] == "value" and c["differs"]]
+    chk.sample(dict(kind="preset-value", case=(differing or cases)[0]))
+    chk.cov["params"] = dict(
+        classes=decl["classes"],
+        fields=n_f,
+        declaration_styles=style,
+        declared_values_differing_from_default=len(differing),
+        non_field_declarations_ignored={k: v for k, v in ignored.items() if v},
+    )
     # ---- negative controls: a wrong expectation must be flagged by each replayer branch
-    probe = Check("C19", tier, dry=True)
-    base = next(c for c in cases if c["kind"] == "value" and c["cls"] == decl["root"] and c["field"] == "gbm_mobility")
-    rep.replay(dict(base, expected="126"), probe)
-    chk.control("params-wrong-expected-value-flagged", len(probe.violations) == 1)
-    probe = Check("C19", tier, dry=True)
+    base = next(c for c in cases if c["kind"] == "value" and c["cls"] == decl["root"] and c["field"] == decl["order"][0])
+    chk.control("params-wrong-expected-value-flagged", _probe(lambda k: rep.replay(dict(base, expected="'not the default'"), k)) == 1)
     fz = next(c for c in cases if c["kind"] == "frozen")
-    rep.replay(dict(fz, outcome="accepted"), probe)
-    chk.control("params-wrong-frozen-outcome-flagged", len(probe.violations) == 1)
-    probe = Check("C19", tier, dry=True)
+    chk.control("params-wrong-frozen-outcome-flagged", _probe(lambda k: rep.replay(dict(fz, outcome="accepted"), k)) == 1)
     rt = next(c for c in cases if c["kind"] == "roundtrip")
-    rep.replay(dict(rt, expected=dict(rt["expected"], number_of_grains="1")), probe)
-    chk.control("params-wrong-round-trip-flagged", len(probe.violations) == 1)
-    return decl
+    chk.control("params-wrong-round-trip-flagged", _probe(lambda k: rep.replay(dict(rt, expected=dict(rt["expected"], **{decl["order"][0]: "'x'"})), k)) == 1)
+    return decl_file
+
+
+# =============================================================================== Config replay
+
+SCSV_HEAD = """---
+schema:
+  delimiter: ','
+  missing: '-'
+  fields:
+"""
+
+
+def _scsv(columns):
+    """Hand-written SCSV text (the writer of the code under test is not used for stubs)."""
+    head = SCSV_HEAD + "".join(f"    - name: {n}\n      type: float\n      fill: NaN\n" for n in columns) + "---\n"
+    names = list(columns)
+    rows = zip(*[columns[n] for n in names])
+    return head + ",".join(names) + "\n" + "".join(",".join(repr(float(x)) for x in r) + "\n" for r in rows)
+
+
+class ConfigReplayer:
+    STUB_COLUMNS = dict(
+        locations_final={"X": (1.0, 2.0, 3.0), "Z": (-1.0, -2.0, -3.0)},
+        locations_initial={"X": (0.0, 0.5), "Y": (0.0, 0.5), "Z": (0.0, 0.5)},
+    )
+
+    def __init__(self, table, workdir):
+        import meshio
+        import numpy as np
+        import pydrex.core
+        import pydrex.exceptions
+        import pydrex.io
+
+        self.np, self.core, self.io, self.exc = np, pydrex.core, pydrex.io, pydrex.exceptions
+        self.table = table
+        self.dir = pathlib.Path(workdir)
+        self.dir.mkdir(parents=True, exist_ok=True)
+        self.toml = self.dir / "case.toml"
+        # stub inputs of the three input modes
+        meshio.Mesh(
+            points=np.array([[0.0, 0.0, 0.0], [1.0, 0.0, 0.0], [0.0, 1.0, 0.0]]),
+            cells=[("triangle", np.array([[0, 1, 2]]))],
+            point_data={"VelocityGradient": np.zeros((3, 9))},
+        ).write(self.dir / "mesh.vtu")
+        (self.dir / "final.scsv").write_text(_scsv(self.STUB_COLUMNS["locations_final"]))
+        (self.dir / "start.scsv").write_text(_scsv(self.STUB_COLUMNS["locations_initial"]))
+        path_cols = {"t": (0.0, 1.0)}
+        for n in ("X", "Y", "Z"):
+            path_cols[f"{n}_1"] = (0.0, 1.0)
+        for i in "123":
+            for j in "123":
+                path_cols[f"L{i}{j}_1"] = (0.0, 0.0)
+        np.savez(self.dir / "path001.npz", **{k: np.array(v) for k, v in path_cols.items()})
+        (self.dir / "path001.scsv").write_text(_scsv(path_cols))
+        self.required_values = dict(
+            mesh='"mesh.vtu"',
+            locations_final='"final.scsv"',
+            locations_initial='"start.scsv"',
+            velocity_gradient='["simple_shear_2d", "Y", "X", 5e-6]',
+            paths_npz='["path001.npz"]',
+            paths_scsv='["path001.scsv"]',
+        )
+        self._tokcache = {}
+
+    # ---- rendering of the spec's value tokens
+    @staticmethod
+    def render(tok):
+        kind, v = tok[0], tok[1]
+        if kind == "num":
+            return str(v)
+        if kind == "str":
+            return json.dumps(v)
+        if kind == "strs":
+            return "[" + ", ".join(json.dumps(x) for x in v) + "]"
+        if kind == "nums":
+            return "[" + ", ".join(str(x) for x in v) + "]"
+        raise MachineryError(f"unknown value token {tok!r}")
+
+    @staticmethod
+    def render_phase(tok):
+        kind, v = tok
+        return json.dumps(v) if kind == "s" else str(v)
+
+    def token_value(self, tok):
+        key = json.dumps(tok)
+        if key not in self._tokcache:
+            self._tokcache[key] = tomllib.loads("v = " + self.render(tok))["v"]
+        return self._tokcache[key]
+
+    def build(self, case):
+        """TOML text of the configuration the spec describes."""
+        mode = case["mode"]
+        keys = [tuple(k) for k in self.table["keys"][mode]]
+        if len(keys) != len(case["keys"]):
+            raise MachineryError("key vector length mismatch")
+        vals = {}
+        sup = self.table["supplied"]
+        for r in self.table["required"][mode]:
+            if r == "timestep":
+                vals[("input", r)] = self.render(sup["timestep"])
+            elif r == "paths":
+                vals[("input", r)] = self.required_values[mode]
+            else:
+                vals[("input", r)] = self.required_values[r]
+        for (t, k), bit in zip(keys, case["keys"]):
+            if not bit:
+                continue
+            if (t, k) == ("parameters", "phase_assemblage"):
+                vals[(t, k)] = "[" + ", ".join(self.render_phase(p) for p in case["asm"]) + "]"
+            elif (t, k) == ("parameters", "phase_fractions"):
+                vals[(t, k)] = "[" + ", ".join(repr(n / d) for n, d in case["fr"]) + "]"
+            elif (t, k) == ("parameters", "initial_olivine_fabric"):
+                vals[(t, k)] = self.render_phase(case["fab"])
+            elif (t, k) == ("output", "raw_output"):
+                vals[(t, k)] = self.render(case["raw"])
+            elif (t, k) == ("output", "diagnostics"):
+                vals[(t, k)] = self.render(case["diag"])
+            else:
+                vals[(t, k)] = self.render(sup[k])
+        for t, k, tok in case["over"]:
+            if tok[0] == "absent":
+                vals.pop((t, k), None)
+            else:
+                vals[(t, k)] = self.render(tok)
+        lines = [f"{k} = {v}" for (t, k), v in vals.items() if t == "top"]
+        tables = ["input"] if case["edit"] != "no-input-table" else []
+        tables += [t for t in ("output", "parameters") if case["hdr"][t]]
+        for t in tables:
+            lines.append(f"[{t}]")
+            lines += [f"{k} = {v}" for (tt, k), v in vals.items() if tt == t]
+        for (t, k) in vals:
+            if t not in ("top", "input") and not case["hdr"].get(t):
+                raise MachineryError(f"spec wrote key {t}.{k} without its table header")
+        return "\n".join(lines) + "\n"
+
+    def run(self, text):
+        self.toml.write_text(text)
+        try:
+            return "ok", self.io.parse_config(self.toml), ""
+        except self.exc.ConfigError as ex:
+            return "ConfigError", None, str(getattr(ex, "message", ex))[:200]
+        except Exception as ex:  # noqa: BLE001
+            return "other:" + type(ex).__name__, None, f"{type(ex).__name__}: {ex}"[:200]
+
+    # ---- projection of the parsed result to the facts the spec demands
+    def facts(self, result):
+        P = result.get("parameters", {}) if isinstance(result, dict) else {}
+        asm, fr, fab = P.get("phase_assemblage", MISSING), P.get("phase_fractions", MISSING), P.get("initial_olivine_fabric", MISSING)
+        f = {}
+        try:
+            f["len-equal"] = len(asm) == len(fr)
+        except TypeError:
+            f["len-equal"] = False
+        try:
+            f["sum-one"] = abs(float(sum(fr)) - 1.0) <= 1e-9
+        except TypeError:
+            f["sum-one"] = False
+        try:
+            f["phases-enum"] = all(isinstance(p, self.core.MineralPhase) for p in asm)
+        except TypeError:
+            f["phases-enum"] = False
+        f["fabric-enum"] = isinstance(fab, self.core.MineralFabric)
+        return f
+
+    def meets(self, cls, arg, got):
+        """Does the parsed value `got` belong to the value class the spec predicted?"""
+        core = self.core
+        if cls == "py":
+            return got is not MISSING and _same(got, eval(arg, dict(vars(core))))  # noqa: S307
+        if cls == "token":
+            return got is not MISSING and _same(got, self.token_value(arg))
+        if cls in ("phases-exact", "phases-between"):
+            if got is MISSING or not isinstance(got, (list, tuple)) or not all(isinstance(p, core.MineralPhase) for p in got):
+                return False
+            names = [p.name for p in got]
+            if cls == "phases-exact":
+                return names == list(arg)
+            lo, hi = arg
+            return set(lo) <= set(names) <= set(hi) and len(set(names)) == len(names)
+        if cls == "fabric":
+            return isinstance(got, core.MineralFabric) and got.name == "olivine_" + arg
+        if cls == "fabric-any":
+            return isinstance(got, core.MineralFabric)
+        if cls == "fractions":
+            return got is not MISSING and _same([float(x) for x in got] if isinstance(got, (list, tuple)) else got, [n / d for n, d in arg])
+        if cls == "noneish":
+            return got is MISSING or got is None or (isinstance(got, (list, tuple)) and len(got) == 0)
+        if cls == "path":
+            return got is not MISSING and pathlib.Path(got) == (self.dir / arg).resolve()
+        if cls == "length":
+            return got is not MISSING and got is not None and len(got) == arg
+        if cls == "not-none":
+            return got is not MISSING and got is not None
+        raise MachineryError(f"unknown demand class {cls!r}")
+
+    def judge(self, case, outcome, result, detail, col, fails):
+        """Compare one run with the spec's prediction; returns True when everything demanded held."""
+        mode = case["mode"]
+        replay = dict(kind="config", mode=mode, fault=case["fault"], toml=detail["toml"], expected_outcome=case["outcome"], got=outcome, message=detail.get("msg", ""))
+        clean = True
+        if outcome not in case["outcome"]:
+            clean = False
+            if "ok" in case["outcome"] and case["fault"] == "none":
+                fails.append((case, outcome, replay))  # spec: parses (or, undocumented types, ConfigError); attributed later
+            else:
+                lattice = case["fault"] == "none"
+                what = f"configuration that cannot satisfy {case['broken'] or case['fault']} -> {outcome}; spec: {case['outcome']}"
+                sig = dict(clause="invalid-config-not-rejected-with-ConfigError", fault="lattice" if lattice else case["fault"], got=outcome)
+                if lattice:
+                    sig["broken"] = sorted(case["broken"])
+                if "ok" in case["outcome"]:
+                    sig["clause"] = "undocumented-type-neither-parsed-nor-ConfigError"
+                col.add(case["oforce"], sig, what, replay)
+            return clean
+        if outcome != "ok":
+            return clean
+        for fact in case["post"]:
+            if not self.facts(result)[fact]:
+                clean = False
+                col.add("S", dict(clause="postcondition", fact=fact), f"parsed parameters violate {fact}", replay)
+        keys = [tuple(k) for k in self.table["keys"][mode]]
+        missing_tables = set()
+        for (t, k), bit, (force, cls, arg) in zip(keys, case["keys"], case["exp"]):
+            if force == "-":
+                continue
+            if t == "top":
+                got = result.get(k, MISSING)
+            else:
+                tab = result.get(t, MISSING)
+                if tab is MISSING:
+                    if cls == "noneish":
+                        continue
+                    if t not in missing_tables:
+                        missing_tables.add(t)
+                        clean = False
+                        col.add(force, dict(clause="optional-table-omitted", table=t, got="table-missing-in-result", header_written=bool(case["hdr"].get(t, True))), f"result of parse_config has no '{t}' table: its documented defaults are not delivered", replay)
+                    continue
+                got = tab.get(k, MISSING) if isinstance(tab, dict) else MISSING
+            if self.meets(cls, arg, got):
+                continue
+            clean = False
+            shown = repr(got)[:80]
+            if not bit:
+                sig = dict(clause="omitted-key-default-wrong", table=t, key=k, got="missing-in-result" if got is MISSING else "other-value")
+                what = f"{t}.{k} omitted: parsed value {shown}, documented default {cls} {arg}"
+            elif cls in ("phases-exact", "fabric", "fabric-any") and force == "S":
+                sig = dict(clause="supplied-enum-not-honoured", table=t, key=k)
+                what = f"{t}.{k} supplied: parsed value {shown}, spec: {cls} {arg}"
+            else:
+                sig = dict(clause="supplied-value-not-preserved", table=t, key=k, mode_is_paths=mode.startswith("paths"))
+                what = f"{t}.{k} supplied: parsed value {shown}, spec: {cls} {arg}"
+            col.add(force, sig, what, dict(replay, key=f"{t}.{k}", parsed=shown))
+        inp = result.get("input", MISSING)
+        for k, force, cls, arg in case["req"]:
+            got = inp.get(k, MISSING) if isinstance(inp, dict) else MISSING
+            if cls == "columns":
+                want = self.STUB_COLUMNS[k]
+                ok = got is not MISSING and got is not None and all(_same(getattr(got, n, None), v) for n, v in want.items())
+            else:
+                ok = self.meets(cls, arg, got)
+            if not ok:
+                clean = False
+                col.add(force, dict(clause="required-input-not-delivered", key=k, mode=mode), f"input.{k} ({mode}): parsed value {repr(got)[:80]}, spec: {cls}", replay)
+        return clean
+
+
+def attribute_failures(fails, table, col):
+    """Valid configurations (spec: parses) that raised.  Causes are established by the minimal
+    elements of the lattice: a mode whose fully-populated configurations all fail, a key whose
+    single omission fails.  Every other failure containing an established cause with the same
+    exception is explained by it; what remains is reported by its minimal omitted set."""
+
+    def omitted(case):
+        keys = [tuple(k) for k in table["keys"][case["mode"]]]
+        opt = [(t, k) for (t, k), bit in zip(keys, case["keys"]) if not bit]
+        # keys of a field unknown to the spec are never supplied: not an omission the lattice chose
+        return [(t, k) for (t, k) in opt if t != "parameters" or k in table["supplied"] or k in ("phase_assemblage", "phase_fractions", "initial_olivine_fabric")]
+
+    items = [(case, out, replay, omitted(case)) for case, out, replay in fails]
+    key_cause, mode_cause = {}, {}
+    for case, out, replay, om in items:
+        if len(om) == 0:
+            mode_cause.setdefault((case["mode"], out), []).append(replay)
+    for case, out, replay, om in items:
+        if len(om) == 1 and (case["mode"], out) not in mode_cause:
+            key_cause.setdefault((om[0], out), []).append(replay)
+    for (mode, out), reps in mode_cause.items():
+        col.add("S", dict(clause="documented-input-mode-rejected", mode=mode, exc=out), f"fully populated configuration in input mode {mode} does not parse: {out} ({reps[0]['message']})", reps[0])
+    for ((t, k), out), reps in key_cause.items():
+        col.add("S", dict(clause="optional-key-omitted", table=t, key=k, exc=out), f"configuration omitting only {t}.{k} does not parse: {out} ({reps[0]['message']})", reps[0])
+    rest = []
+    n_explained = 0
+    for case, out, replay, om in items:
+        if len(om) == 0 or (len(om) == 1 and (om[0], out) in key_cause):
+            continue
+        causes = [k for k in om if (k, out) in key_cause]
+        if (case["mode"], out) in mode_cause or causes:
+            n_explained += 1
+            continue
+        rest.append((case, out, replay, om))
+    rest.sort(key=lambda x: len(x[3]))
+    minimal = []
+    for case, out, replay, om in rest:
+        if any(set(m) <= set(om) and o == out for m, o in minimal):
+            continue
+        minimal.append((om, out))
+        hdr = {t: bool(v) for t, v in case["hdr"].items()}
+        col.add(
+            "S",
+            dict(clause="valid-config-rejected", omitted=[f"{t}.{k}" for t, k in om] if len(om) <= 3 else f"{len(om)} keys", headers=hdr if len(om) > 3 else None, exc=out),
+            f"configuration with the required inputs does not parse when {len(om)} optional keys are omitted: {out} ({replay['message']})",
+            replay,
+        )
+    return n_explained
+
+
+def run_config(chk, d, tier, decl_file):
+    quick = tier != "thorough"
+    cfgname = "Config" if quick else "Config_thorough"
+    res = run_tlc("Config", cfgname, workers=WORKERS, timeout=900, env={"C19_DECL_FILE": decl_file})
+    tables = parse_printed_json(res.output, "TABLE")
+    cases = parse_printed_json(res.output, "CASE")
+    if not tables or len(cases) < 5000 or 2 * len(cases) != res.distinct:
+        raise MachineryError(f"Config.tla emitted {len(cases)} cases for {res.distinct} states")
+    table = tables[0]
+    res.output = ""  # free memory
+    chk.add_tlc(
+        "Config/" + cfgname,
+        res,
+        "optional-key subsets (few present / few omitted) x table headers x 4 input-mode variants x 7 phase-list shapes x 5 fabric letters + 22 single faults on full and minimal bases; 7 lemmas",
+    )
+    rep = ConfigReplayer(table, d / "cfg")
+    col, fails, passing = Collector(), [], None
+    outcomes = {}
+    t0 = time.time()
+    for case in cases:
+        text = rep.build(case)
+        outcome, result, msg = rep.run(text)
+        detail = dict(toml=text, msg=msg)
+        clean = rep.judge(case, outcome, result, detail, col, fails)
+        if clean and outcome == "ok" and passing is None and any(not b and e[1] == "py" for b, e in zip(case["keys"], case["exp"])):
+            passing = (case, text)
+        key = ("fault:" + case["fault"] if case["fault"] != "none" else "lattice") + " " + "|".join(case["outcome"]) + " -> " + outcome
+        outcomes[key] = outcomes.get(key, 0) + 1
+        chk.count((case["mode"], tuple(case["keys"]), tuple(case["hdr"].values()), json.dumps([case["asm"], case["fr"], case["fab"]]), case["fault"]))
+    chk.cov["config_replay_s"] = round(time.time() - t0, 1)
+    n_expl = attribute_failures(fails, table, col)
+    chk.cov["config_outcomes"] = dict(sorted(outcomes.items()))
+    chk.cov["valid_configs_that_raised"] = dict(total=len(fails), explained_by_an_established_single_cause=n_expl)
+    col.flush(chk)
+    chk.sample(dict(kind="configuration", toml=rep.build(cases[len(cases) // 2]), expected_outcome=cases[len(cases) // 2]["outcome"]))
+    fault_case = next(c for c in cases if c["fault"] == "sum-below-one")
+    chk.sample(dict(kind="single-fault", fault=fault_case["fault"], toml=rep.build(fault_case), expected_outcome=fault_case["outcome"]))
+
+    # ---- negative controls: perturbed expectations must be flagged
+    def rerun(case, col2):
+        text = rep.build(case)
+        outcome, result, msg = rep.run(text)
+        f2 = []
+        rep.judge(case, outcome, result, dict(toml=text, msg=msg), col2, f2)
+        attribute_failures(f2, table, col2)
+
+    if passing is None:
+        chk.cov["negative_controls"].append(dict(control="config-controls", fired=False, detail="not run: no configuration parsed cleanly on this tree"))
+    else:
+        case, _ = passing
+        if _probe(lambda k: rerun(case, k)) != 0:
+            raise MachineryError("control base case is not clean")
+        keys = [tuple(k) for k in table["keys"][case["mode"]]]
+        # (1) a wrong documented default for an omitted key
+        i = next((i for i, (k, b) in enumerate(zip(keys, case["keys"])) if not b and case["exp"][i][1] == "py"), None)
+        if i is not None:
+            wrong = json.loads(json.dumps(case))
+            wrong["exp"][i] = ["S", "py", "'not the default'"]
+            chk.control("config-wrong-default-flagged", _probe(lambda k: rerun(wrong, k)) == 1, f"{keys[i]}")
+        # (2) a configuration that parses, predicted to be rejected
+        wrong = dict(case, outcome=["ConfigError"], broken=["sum-one"])
+        chk.control("config-wrong-outcome-flagged", _probe(lambda k: rerun(wrong, k)) == 1)
+        # (3) a wrong enumeration member for a supplied fabric / phase list
+        i = keys.index(("parameters", "phase_assemblage"))
+        wrong = json.loads(json.dumps(case))
+        wrong["exp"][i] = ["S", "phases-exact", ["enstatite", "enstatite", "olivine"]]
+        chk.control("config-wrong-phase-members-flagged", _probe(lambda k: rerun(wrong, k)) == 1)
+    # (4) a rejected single fault predicted to parse
+    rejected = next((c for c in cases if c["fault"] == "sum-below-one"), None)
+    wrong = dict(rejected, outcome=["ok"])
+    chk.control("config-rejected-fault-predicted-ok-flagged", _probe(lambda k: rerun(wrong, k)) >= 1)
+    # (5) the projection of post-conditions notices a broken parameter table
+    fake = dict(parameters=dict(phase_assemblage=(rep.core.MineralPhase.olivine, 1), phase_fractions=[0.5], initial_olivine_fabric="A"))
+    chk.control("config-postcondition-projection", not any(rep.facts(fake).values()))
 
 
 def main(tier):
     chk = Check("C19", tier)
-    pd = quiet_pydrex()
+    quiet_pydrex()
     with scratch("c19-") as d:
-        run_params(chk, pd, d, tier)
-    return chk.finish(rule="presets x fields", exhaustive=True)
+        decl_file = run_params(chk, d, tier)
+        run_config(chk, d, tier, decl_file)
+    return chk.finish(
+        rule="Params: every (class, field) of DefaultParams and the pydrex.mock presets, distinct by pair, non-trivial when the class declares the field itself; "
+        "Config: every configuration enumerated by TLC from Config.tla (optional-key subsets with <= MaxPresent present or <= MaxOmitted omitted, x table headers x input modes x phase-list shapes x fabric letters, plus every single fault), distinct by (mode, key vector, headers, lists, fabric, fault)",
+        exhaustive=True,
+        trusted=["the documented configuration format as transcribed in Config.tla (data/specs/*.toml comments, DefaultParams field documentation)", "Python's ast module for reading class-body declarations"],
+    )
+
+
+def replay(obj):
+    """./check C19 --replay <path>: re-run the first recorded instance against the current tree."""
+    quiet_pydrex()
+    inst = obj["replay"]["first"]
+    if inst.get("kind") == "config":
+        import pydrex.io
+
+        with scratch("c19-replay-") as d:
+            rep = ConfigReplayer(dict(keys={}, supplied={}, required={}), d / "cfg")
+            out, result, msg = rep.run(inst["toml"])
+            print(f"--- configuration ---\n{inst['toml']}--- expected outcome {inst['expected_outcome']}; now: {out} {msg}")
+            if result is not None:
+                print({k: v for k, v in result.items() if k != "input"})
+        return 0 if out in inst["expected_outcome"] else 1
+    if inst.get("kind") == "value":
+        import pydrex.core
+        import pydrex.mock
+
+        cls = getattr(pydrex.mock, inst["cls"], None) or getattr(pydrex.core, inst["cls"])
+        got = getattr(cls(), inst["field"])
+        print(f"{inst['cls']}().{inst['field']} = {got!r}; declared {inst['declared']} in {inst['declared_in']}")
+        return 0
+    print("nothing executable recorded for this signature")
+    return 0
